@@ -1,6 +1,7 @@
 import FastgoModel.Proofs.ReaderProps
 import FastgoModel.Reader.Example
 import FastgoModel.Proofs.StreamFrame
+import FastgoModel.Proofs.FrameUncond
 /-!
 # C05 — after io.EOF the source is positioned exactly at the end of the DEFLATE stream
 
@@ -66,6 +67,19 @@ theorem C05_spec_inflater_exact (mode : Spec.Mode) (body : List UInt8) (hc : Spe
     ∃ payload, (Container.specInflater mode).Exact body payload ∧ Container.specInflater mode body = some (payload, []) :=
   Container.specInflater_exact mode body hc
 
+/-- **the specification inflater is prefix-stable, without side condition**: whatever byte string it decodes to the end
+    (less than a byte of padding left) it decodes to the same data when any bytes follow, and exactly those bytes are left.
+    This is the specification-level statement of C05 for ALL valid streams. -/
+theorem C05_spec_prefix_stable (mode : Spec.Mode) (bytes more : List UInt8) (out : Array UInt8) (rest : Spec.Bits) (st : Spec.Stats)
+    (h : Spec.inflate mode [] bytes = .done out rest st) (hr : rest.length < 8) :
+    ∃ st', Spec.inflate mode [] (bytes ++ more) = .done out (rest ++ Spec.bytesToBits more) st' :=
+  Spec.inflate_prefix_stable mode bytes more out rest st h hr
+
+theorem C05_spec_inflater_exact_of_done (mode : Spec.Mode) (body : List UInt8) (out : Array UInt8) (rest : Spec.Bits)
+    (st : Spec.Stats) (h : Spec.inflate mode [] body = .done out rest st) (hr : rest.length < 8) :
+    (Container.specInflater mode).Exact body out.toList :=
+  Container.specInflater_exact_of_done mode body out rest st h hr
+
 /-! Non-vacuity: the 18 bytes fastgo emits for `Write("abcabcabcabc"); Close()` at level 1 pass `checkStream`; followed by
     other bytes the specification inflater still yields the 12 bytes and leaves exactly those bytes. -/
 def realStream : List UInt8 := [0x35,0xc2,0x31,0x0d,0x00,0x00,0x00,0x83,0x30,0xad,0x1b,0xfe,0x3d,0x70,0x91,0x74,0x27,0x08]
@@ -77,6 +91,8 @@ example : Spec.checkStream .strict realStream = true ∧
 end Fastgo.Reader
 
 #print axioms Fastgo.Reader.C05_spec_stream_frame
+#print axioms Fastgo.Reader.C05_spec_prefix_stable
+#print axioms Fastgo.Reader.C05_spec_inflater_exact_of_done
 #print axioms Fastgo.Reader.C05_spec_inflater_exact
 #print axioms Fastgo.Reader.C05_invariant
 #print axioms Fastgo.Reader.C05_exact
